@@ -3,6 +3,7 @@ package conc
 import (
 	"fmt"
 	"path/filepath"
+	"runtime"
 	"sync"
 	"sync/atomic"
 	"time"
@@ -118,6 +119,14 @@ func runC14Full(seed uint64) (violation string, t *Trial, blockedAt int64) {
 	c.CleanUp()
 	t.wg.Wait()
 	var issued atomic.Int64
+	// In half of the scenarios the writers stop as soon as the iteration lets go of the lock: the writes
+	// that were stuck on the full buffer are then the last ones of the run, and nothing comes after them
+	// that could pick up an event they left behind.
+	var releasing atomic.Bool
+	stopAtRelease := seed&2 == 2
+	tight := seed&4 == 4
+	spin := r.Intn(4000)
+	var sink atomic.Int64
 	locked := make(chan struct{})
 	var wg sync.WaitGroup
 	wg.Add(1)
@@ -136,6 +145,19 @@ func runC14Full(seed uint64) (violation string, t *Trial, blockedAt int64) {
 			close(locked)
 			// hold the lock until the writers are stuck on the full buffer (or have all finished):
 			// no write was issued for a while. Workload shaping only, nothing is judged by time.
+			if tight {
+				// let go of the lock at the moment the first writers find the buffer full: they are then
+				// inside their bounded retry loop, and the drain that follows lets a retried offer through
+				capEvents := int64(128 * roundUpPow2(procsAtStart))
+				for issued.Load() < capEvents+1 && issued.Load() < int64(total) {
+				}
+				for i := 0; i < spin; i++ {
+					sink.Add(1)
+				}
+				blockedAt = issued.Load()
+				releasing.Store(true)
+				continue
+			}
 			last, same := int64(-1), 0
 			for same < 40 && issued.Load() < int64(total) {
 				time.Sleep(100 * time.Microsecond)
@@ -146,6 +168,7 @@ func runC14Full(seed uint64) (violation string, t *Trial, blockedAt int64) {
 				}
 			}
 			blockedAt = issued.Load()
+			releasing.Store(true)
 		}
 	}()
 	<-locked
@@ -155,6 +178,9 @@ func runC14Full(seed uint64) (violation string, t *Trial, blockedAt int64) {
 		go func(w int) {
 			defer wg.Done()
 			for i := w; i < total; i += writers {
+				if stopAtRelease && releasing.Load() {
+					return
+				}
 				issued.Add(1)
 				c.Set(10+i%keyspace, i+1)
 				progress.Add(1)
@@ -180,6 +206,18 @@ func runC14Full(seed uint64) (violation string, t *Trial, blockedAt int64) {
 	return "", t, blockedAt
 }
 
+// procsAtStart is GOMAXPROCS as the library saw it when it sized its write buffer (128 events per
+// processor, rounded up to a power of two); trials change GOMAXPROCS later.
+var procsAtStart = runtime.GOMAXPROCS(0)
+
+func roundUpPow2(n int) int {
+	p := 1
+	for p < n {
+		p <<= 1
+	}
+	return p
+}
+
 func runC14PairsAll(col *core.Collector, tier, variant string, seed uint64, shard int, replayDir string, wd *Watchdog) {
 	rounds := 25000
 	if tier == "thorough" {
@@ -188,7 +226,7 @@ func runC14PairsAll(col *core.Collector, tier, variant string, seed uint64, shar
 	if variant != "plain" {
 		rounds /= 4
 	}
-	fulls := 6
+	fulls := 16
 	if tier == "thorough" {
 		fulls = 150
 	}
